@@ -79,6 +79,8 @@ type env struct {
 	profiler string // the built binary
 	fakePath string // PATH directory with the fake go
 	noPath   string // PATH directory without any go
+	noExec   string // PATH directory whose go cannot be started: an executable text file without #! (ENOEXEC)
+	noInterp string // PATH directory whose go names an interpreter that does not exist (ENOENT at exec, found by LookPath)
 	model    *vd.Model
 	sum      *Summary
 	seen     map[string]bool
@@ -166,6 +168,12 @@ func setup(sum *Summary) (*env, error) {
 	e.noPath = filepath.Join(e.dir, "nopath")
 	os.MkdirAll(e.fakePath, 0o755)
 	os.MkdirAll(e.noPath, 0o755)
+	e.noExec = filepath.Join(e.dir, "noexec")
+	e.noInterp = filepath.Join(e.dir, "nointerp")
+	os.MkdirAll(e.noExec, 0o755)
+	os.MkdirAll(e.noInterp, 0o755)
+	os.WriteFile(filepath.Join(e.noExec, "go"), []byte("this is not a program\n"), 0o755)
+	os.WriteFile(filepath.Join(e.noInterp, "go"), []byte("#!/nonexistent/interpreter-of-vprof\nexit 0\n"), 0o755)
 	// a copy, not a symlink: os.Executable would resolve the link and argv[0] is all we look at
 	data, err := os.ReadFile(self)
 	if err != nil {
